@@ -32,7 +32,7 @@ CLAIMED = {
               "global-duration overrides, and interleave nine kinds of observation (listing, duration, times, acquisition indices, Stim export, compact / full "
               "plot, copy, unrolled copy). Whenever a mutation follows an observation, and at the end, the live circuit is compared with two twins rebuilt from the "
               "mutation log alone (never observed / listed after every mutation) on a full fingerprint; the whole step list shrinks as one value and replays without Hypothesis.",
-              "All three circuits are read under the same override stack; DynamicDurationStrategy callables are outside the quantifier.",
+              "All three circuits are read under the same override stack. A second part changes the values behind DynamicDurationStrategy callables between two questions; that is an open known finding (known_findings.json: C03-dynamic-duration-change-not-seen-by-memo), attributed only when its signature holds.",
               "DESIGN.md section 4 / C03"),
     "C04": _c("generated build programs biased to off-leaf spans; validity predicate duration == span of listed content",
               "Exploration: " + PROGRAMS + " with ~70 % explicit relations so that the latest end / earliest start often sit on non-leaf / non-first operations; "
@@ -56,7 +56,7 @@ CLAIMED = {
               "Exploration: programs with ~50 % measurements on <= 5 qubits, 3 tags, registries of the own circuit or any ancestor, counts at every level; after "
               "apply_modifiers() circuit-level and per-qubit indices must be the ranks in listing order, both index filters exact, the exported measurement "
               "record in the same order, never -1, indices increasing with time where claimed, and a measurement added after unrolling indexed last; library circuits too.",
-              "Indices are only claimed for modifier-applied circuits; a measurement's registry is its circuit's or an ancestor's (how the library uses registries).",
+              "Indices are only claimed for modifier-applied circuits; a measurement's registry is its circuit's or an ancestor's (how the library uses registries). The time-order clause has an open known finding (C07-depth-based-placement-index-before-time: the placement rule itself), attributed only when the schedule equals the reference model's.",
               "DESIGN.md section 4 / C07"),
     "C08": _c("generated programs over supported / unsupported / annotation kinds vs independent translation table validated against stim unitaries",
               "Exploration: the export (REPEAT blocks expanded by the check, fused targets split) must equal the listing translated one by one by an oracle table whose "
